@@ -119,10 +119,13 @@ func (r *DeviceLocal) SetupRemoteDevice(ski string, writeI shipapi.ShipConnectio
 	sender := NewSender(writeI)
 	rDevice := NewDeviceRemote(r, ski, sender)
 
-	r.AddRemoteDeviceForSki(ski, rDevice)
-
+	// adding the device and subscribing to the events is one step with regard to
+	// RemoveRemoteDevice, which unsubscribes when it removes the last device
+	r.mux.Lock()
+	r.remoteDevices[ski] = rDevice
 	// always add subscription, as it checks if it already exists
 	_ = Events.subscribe(api.EventHandlerLevelCore, r)
+	r.mux.Unlock()
 
 	// Request Detailed Discovery Data
 	_, _ = r.RequestRemoteDetailedDiscoveryData(rDevice)
@@ -180,12 +183,13 @@ func (r *DeviceLocal) RemoveRemoteDevice(ski string) {
 	delete(r.remoteDevices, ski)
 	remainingDevices := len(r.remoteDevices)
 	entities := slices.Clone(r.entities)
-	r.mux.Unlock()
-
-	// only unsubscribe if we don't have any remote devices left
+	// only unsubscribe if we don't have any remote devices left. Finding that out and
+	// unsubscribing is one step, otherwise a device that is set up in between is left
+	// without the handling of its events
 	if remainingDevices == 0 {
 		_ = Events.unsubscribe(api.EventHandlerLevelCore, r)
 	}
+	r.mux.Unlock()
 
 	remoteDeviceAddress := &model.DeviceAddressType{
 		Device: remoteDevice.Address(),
